@@ -228,6 +228,9 @@ class Extractor:
                         if v == 0:
                             self._bind_continue(env2, t, d[1][1])
                             self.walk(tgt, env2, conds + [("ok", d[1][1])], onpath, effects)
+                        elif self.b.local_ty(0)["s"].startswith(("std::option::Option<", "core::option::Option<")):
+                            # `?` on an Option in a function returning Option: the residual is None
+                            self.leaves.append((conds + [("err", d[1][1])], ("variant", "std::option::Option", "None", [], ())))
                         else:
                             self.leaves.append((conds + [("err", d[1][1])], ("variant", "std::result::Result", "Err",
                                                                              [("opaque", "propagated")], ("0",))))
@@ -557,6 +560,8 @@ class Evaluator:
                     if len(mc) == 1:
                         return EnumVal(v0.adt, v0.v, [self.call(self.prog.bodies[mc[0]], [v0.f[0]])])
                 return EnumVal(v0.adt, v0.v, [Opaque("mapped")])
+            if re.match(r"^std::option::Option::<T>::(as_ref|as_mut|as_deref|as_deref_mut)$", name) and vals and isinstance(vals[0], EnumVal):
+                return vals[0]
             if name.endswith("::trailing_zeros") and vals and isinstance(vals[0], int) and vals[0] > 0:
                 return (vals[0] & -vals[0]).bit_length() - 1
             if re.search(r"as std::cmp::PartialEq>::(eq|ne)$", name) or name.startswith("std::cmp::impls::<impl std::cmp::PartialEq"):
